@@ -153,7 +153,7 @@ func runC05(r resIface, c *c05case, rng *prng.R, scratch string) {
 		runC05iocopy(r, c, rng)
 		return
 	}
-	sc := fakesource.Script{RunID: "aaaabbbbccccddddeeeeffff0000111122223333", StartOffset: int64(rng.Pick(0, 1, 1000, 1<<31-5, 1<<40)), ReplyWord: c.Word, ContWord: contWordFor(c.Word),
+	sc := fakesource.Script{RunID: "aaaabbbbccccddddeeeeffff0000111122223333", StartOffset: int64(rng.Pick(0, 1, 1000, 1<<31-5, 1<<32-40, 1<<40)), ReplyWord: c.Word, ContWord: contWordFor(c.Word),
 		NLBefore: c.NLBefore, NLBetween: c.NLBetween, RDB: rdb, Frag: fragPlan(c.Frag, c.N, rng), Continue: c.Path == "continue"}
 	if c.Frag == "dribble1" && c.N+c.Stream > 70000 {
 		sc.Frag = []int{1, 1, 1, 1, 1, 50000}
